@@ -20,7 +20,8 @@ from vlib import Inconclusive, log
 CHECKS = {
     # (C03_AtomicTarget: the ledger side of the automatic rollback - WHICH revision's content the new revision carries)
     "C01": ["C01_OneDeployed", "C01_KeyIsBody", "C01_NextRevision", "C01_Success", "C01_Prune", "C03_AtomicTarget"],
-    "C02": ["C02_Success", "C02_Uninstall", "C02_UninstallListed", "C02_Foreign", "C02_Strangers", "C02_Bystanders"],
+    "C02": ["C02_Success", "C02_Uninstall", "C02_UninstallListed", "C02_Foreign", "C02_Strangers", "C02_Bystanders",
+            "C01_Prune"],      # (the deployed revision is what the next upgrade diffs against: pruning must never take it)
     "C03": ["C03_Error", "C03_Failed", "C03_Cleanup", "C03_AtomicUpgrade", "C03_AtomicTarget", "C03_AtomicInstall"],
     "C06": ["C06_ReadOnly", "C06_EndSame", "C06_ClientOnlySilent", "C02_Foreign"],
     "C07": ["C07_Refusal", "C07_Stamped", "C07_DeleteNamed"],
@@ -42,7 +43,7 @@ FAMILY = {
     "C06": dict(mc="MC_Dry", gen="MC_GenDry", quick=200, thorough=2000, drivers=["secret", "memory", "configmap"], cli=2,
                 enum=["MC_EnumDry.cfg"], extra_gen=["MC_GenDryCrash.cfg", "MC_GenDryOdd.cfg"], gen_split=True),
     "C07": dict(mc="MC_Own", gen="MC_GenOwn", quick=260, thorough=2000, drivers=["secret", "memory", "configmap"],
-                enum=["MC_EnumOwn.cfg", "MC_EnumOwnHook.cfg"], enum_thorough=["MC_EnumOwn3.cfg"]),
+                enum=["MC_EnumOwn.cfg", "MC_EnumOwnHook.cfg", "MC_EnumOwnReplace.cfg"], enum_thorough=["MC_EnumOwn3.cfg"]),
     "C09": dict(mc="MC_Conc", gen="MC_GenConc", quick=480, thorough=4000, drivers=["secret", "memory", "configmap"], gen_split=True,
                 extra_mc=["MC_ConcDep.cfg", "MC_ConcLim.cfg"], extra_mc_thorough=["MC_ConcFault.cfg"],
                 extra_gen=["MC_GenConcDep.cfg", "MC_GenConc3.cfg", "MC_GenConcFault.cfg", "MC_GenConcLate.cfg"]),
